@@ -1,0 +1,41 @@
+//go:build verif
+
+package externalcmd
+
+// Machine-checked contracts for /verif (govc). Comment-only: compiled only with -tags verif, adds no code.
+
+// C21: a variable referenced in the command line is replaced by exactly the value the server passes
+// (else by the process environment); the command line is split into words BEFORE the values are
+// substituted, word by word, so a value can never change how the command is split; the wait closure
+// returns the command's real exit status, and a non-zero status is reported as an error.
+
+//@ func expandEnv$1
+//@   property C21
+//@   modifies nothing
+//@   ensures [server-value-verbatim] has(env, variable) ==> result == env[variable]
+//@   ensures [else-process-environment] !has(env, variable) ==> result == osGetenv(variable)
+
+//@ func expandEnv
+//@   property C21
+//@   modifies nothing
+//@   assert-call os.Expand: s == caller_s
+//@   assumed-ensures result == expandWith(s, env)
+
+//@ func (c *Cmd) runOSSpecific
+//@   property C21
+//@   safety -all
+//@   loop 1 invariant 0 <= _i && _i <= len(cmdParts) && len(cmdParts) == shWordCount(cmdstr) && c.Env == old(c.Env)
+//@   loop 1 invariant forall(k, 0, _i, cmdParts[k] == expandWith(shWord(cmdstr, k), c.Env))
+//@   loop 1 invariant forall(k, _i, len(cmdParts), cmdParts[k] == shWord(cmdstr, k))
+//@   assert-call os/exec.Command: len(cmdParts) >= 1 ==> name == expandWith(shWord(cmdstr, 0), c.Env) && len(arg) == shWordCount(cmdstr) - 1 && forall(k, 0, len(arg), arg[k] == expandWith(shWord(cmdstr, k+1), c.Env))
+//@   assert-call fmt.Errorf: c != 0
+//@   ensures [non-zero-status-is-an-error] result == nil && called(Kill) == 0 ==> called(Start) == 1 && resultof(Start) == nil && local(c, int) == 0
+//@   assert-call Start: true
+//@   assert-call Kill: true
+
+//@ func (c *Cmd) runOSSpecific$1$1
+//@   property C21
+//@   ensures [success-is-zero] called(Wait) == 1 && (resultof(Wait) == nil ==> result == 0)
+//@   ensures [exit-status-reported] resultof(Wait) != nil && resultof(AsType, 1) ==> result == exitCodeOf(resultof(AsType, 0).ProcessState)
+//@   assert-call Wait: c == cmd
+//@   assert-call AsType: err == resultof(Wait)
